@@ -34,7 +34,7 @@ import gen
 import progast as P
 from checks import c04
 
-GEN = re.compile(r"\b_[A-Za-z]+\d+\b")
+GEN = re.compile(r"\b_+[A-Za-z]+\d+\b")
 KNOWN_COLLISION = "generated-name-collision:MultiAssign-version-vs-later-get_unique_var"
 KNOWN_INV_GOALS = "GoalsAction.parse_goals:cli_args.goals-mutated-by-first-benchmark"
 KNOWN_PLOT_LEAK = "PlotAction:numeric-settings-left-on:in-process-only"
